@@ -94,9 +94,8 @@ def step (cfg : Cfg) (t : KS) : ROp → KS × ROut
   | .deleteMatch pat =>
     if pat.toList.contains '*' then (t.delMany (matching t pat), .none_) else (t.del pat, .none_)
   | .setLock k tok ms =>
-    if ms = 0 then (t, failOut cfg (.bool false))
-    else if t.present k then (t, .bool false)
-    else (t.put k ⟨.str tok, some (t.now + ms)⟩, .bool true)          -- write-if-absent with a lease
+    if t.present k then (t, .bool false)
+    else (t.put k ⟨.str tok, (pxOf (some ms)).map (t.now + ·)⟩, .bool true)   -- write-if-absent with a lease (`ms = 0`: without one)
   | .unlock k tok =>
     match t.find k with
     | none => (t, .int 0)
